@@ -180,7 +180,7 @@ impl GroupsHandler<'_> {
                     // NOTE: Not sure this is a spec-compliant behavor:
                     // If the failsafe is armed for our fabric, we'll NOT persist the group changes until commissioning is complete.
                     // And we'll LOSE those changes if the failsafe times out before commissioning completes.
-                    if !state.failsafe.is_armed_for(fab_idx.get()) {
+                    if !state.failsafe.defers_store_for(fab_idx.get()) {
                         persist.store(fabric)?;
                     }
 
@@ -359,7 +359,7 @@ impl ClusterHandler for GroupsHandler<'_> {
                 // NOTE: Not sure this is a spec-compliant behavor:
                 // If the failsafe is armed for our fabric, we'll NOT persist the group changes until commissioning is complete.
                 // And we'll LOSE those changes if the failsafe times out before commissioning completes.
-                if !state.failsafe.is_armed_for(fab_idx.get()) {
+                if !state.failsafe.defers_store_for(fab_idx.get()) {
                     persist.store(fabric)?;
                 }
 
@@ -397,7 +397,7 @@ impl ClusterHandler for GroupsHandler<'_> {
             // NOTE: Not sure this is a spec-compliant behavor:
             // If the failsafe is armed for our fabric, we'll NOT persist the group changes until commissioning is complete.
             // And we'll LOSE those changes if the failsafe times out before commissioning completes.
-            if !state.failsafe.is_armed_for(fab_idx.get()) {
+            if !state.failsafe.defers_store_for(fab_idx.get()) {
                 persist.store(fabric)?;
             }
 
